@@ -205,6 +205,65 @@ Section ALemmas.
     - apply keq_eq in E. inversion H; subst. now left.
     - right. now apply IH.
   Qed.
+
+  (* dictionaries: keys without repetition *)
+  Lemma in_keys_aset k (v : V) m x : In x (map fst (aset keq k v m)) -> x = k \/ In x (map fst m).
+  Proof.
+    induction m as [|[k' v'] m IH]; simpl.
+    - intros [<-|[]]. now left.
+    - destruct (keq k k') eqn:E; simpl; intros [<-|H]; auto. destruct (IH H); auto.
+  Qed.
+
+  Lemma keys_aset k (v : V) m : NoDup (map fst m) -> NoDup (map fst (aset keq k v m)).
+  Proof.
+    induction m as [|[k' v'] m IH]; simpl; intros H.
+    - constructor; [intros []|constructor].
+    - inversion H; subst. destruct (keq k k') eqn:E; simpl; constructor; auto.
+      intros Hin. apply in_keys_aset in Hin as [->|Hin]; [|contradiction]. rewrite keq_refl in E. discriminate.
+  Qed.
+
+  Lemma in_keys_aremove k (m : list (K * V)) x : In x (map fst (aremove keq k m)) -> In x (map fst m).
+  Proof.
+    induction m as [|[k' v'] m IH]; simpl; [auto|]. destruct (keq k k'); simpl; [auto|]. intros [<-|H]; auto.
+  Qed.
+
+  Lemma keys_aremove k (m : list (K * V)) : NoDup (map fst m) -> NoDup (map fst (aremove keq k m)).
+  Proof.
+    induction m as [|[k' v'] m IH]; simpl; intros H; [constructor|]. inversion H; subst.
+    destruct (keq k k'); simpl; [auto|]. constructor; auto. intros Hin. now apply in_keys_aremove in Hin.
+  Qed.
+
+  Lemma in_alookup k (v : V) m : NoDup (map fst m) -> In (k, v) m -> alookup keq k m = Some v.
+  Proof.
+    induction m as [|[k' v'] m IH]; simpl; intros H Hin; [contradiction|]. destruct Hin as [E|Hin]; inversion H; subst.
+    - inversion E; subst. now rewrite keq_refl.
+    - destruct (keq k k') eqn:E; [|auto]. apply keq_eq in E. subst k'. exfalso. apply H2.
+      change k with (fst (k, v)). now apply in_map.
+  Qed.
+
+  Lemma key_alookup k (m : list (K * V)) : In k (map fst m) -> exists v, alookup keq k m = Some v.
+  Proof.
+    induction m as [|[k' v'] m IH]; simpl; intros H; [contradiction|].
+    destruct (keq k k') eqn:E; [eauto|]. destruct H as [->|H]; [rewrite keq_refl in E; discriminate|auto].
+  Qed.
+
+  Lemma alookup_aset_inv k (v : V) m k' v' : alookup keq k' (aset keq k v m) = Some v' ->
+    (k' = k /\ v' = v) \/ (k' <> k /\ alookup keq k' m = Some v').
+  Proof.
+    intros H. destruct (keq k' k) eqn:E.
+    - apply keq_eq in E. subst k'. rewrite alookup_aset_eq in H. left. split; congruence.
+    - assert (k' <> k) by (intros ->; rewrite keq_refl in E; discriminate).
+      rewrite alookup_aset_neq in H by assumption. now right.
+  Qed.
+
+  Lemma alookup_aremove_inv k (m : list (K * V)) k' v' : alookup keq k' (aremove keq k m) = Some v' ->
+    k' <> k /\ alookup keq k' m = Some v'.
+  Proof.
+    intros H. destruct (keq k' k) eqn:E.
+    - apply keq_eq in E. subst k'. rewrite alookup_aremove_eq in H. discriminate.
+    - assert (k' <> k) by (intros ->; rewrite keq_refl in E; discriminate).
+      rewrite alookup_aremove_neq in H by assumption. now split.
+  Qed.
 End ALemmas.
 
 Lemma Neqb_eq' a b : N.eqb a b = true <-> a = b. Proof. apply N.eqb_eq. Qed.
@@ -217,6 +276,12 @@ Definition pset_eq := @alookup_aset_eq N bytes N.eqb Neqb_eq'.
 Definition pset_neq := @alookup_aset_neq N bytes N.eqb Neqb_eq'.
 Definition prem_eq := @alookup_aremove_eq N bytes N.eqb.
 Definition prem_neq := @alookup_aremove_neq N bytes N.eqb Neqb_eq'.
+Definition wkeys_set := @keys_aset bytes N beqb beqb_eq.
+Definition wkeys_rem := @keys_aremove bytes N beqb.
+Definition pset_inv := @alookup_aset_inv N bytes N.eqb Neqb_eq'.
+Definition prem_inv := @alookup_aremove_inv N bytes N.eqb Neqb_eq'.
+Definition wset_inv := @alookup_aset_inv bytes N beqb beqb_eq.
+Definition wrem_inv := @alookup_aremove_inv bytes N beqb beqb_eq.
 
 (* ================================================================== file systems *)
 Definition isdir_in (p : bytes) (t : fs) : Prop := exists e, In e t /\ f_path e = p /\ f_dir e = true.
@@ -807,7 +872,11 @@ Section Cover.
     (* no stale key in _wd_for_path *)
     wi_tight : forall x wd, alookup beqb x (wfp r) = Some wd ->
       (exists kw, In kw (k_watches k) /\ kw_wd kw = wd) /\ alookup N.eqb wd (pfw r) = Some x;
-    wi_mvf : forall c x, alookup N.eqb c (mvf r) = Some x -> (c < k_next_cookie k)%N
+    wi_mvf : forall c x, alookup N.eqb c (mvf r) = Some x -> (c < k_next_cookie k)%N;
+    (* no stale key in _path_for_wd: every descriptor the reader knows is the descriptor of a kernel watch *)
+    wi_pfw : forall wd x, alookup N.eqb wd (pfw r) = Some x -> exists kw, In kw (k_watches k) /\ kw_wd kw = wd;
+    (* _wd_for_path is a dictionary (no shadowed entry) *)
+    wi_keys : NoDup (map fst (wfp r))
   }.
 
   Lemma ino_inj_k k a b : NoDup (map kw_ino (k_watches k)) -> In a (k_watches k) -> In b (k_watches k) ->
@@ -838,6 +907,22 @@ Section Cover.
     rewrite Ewd in Pe. exists e, kw. repeat split; try assumption; congruence.
   Qed.
 
+  (* the reader's two tables mention descriptors of live kernel watches only: every key of _path_for_wd and every value
+     of _wd_for_path (all entries of the association lists, not only the visible ones) is the wd of a kernel watch *)
+  Definition tables_live (k : kst) (r : rstate) : Prop :=
+    (forall wd, In wd (map fst (pfw r)) -> In wd (map kw_wd (k_watches k))) /\
+    (forall wd, In wd (map snd (wfp r)) -> In wd (map kw_wd (k_watches k))).
+
+  Lemma pfw_live t k r : WInv t k r -> tables_live k r.
+  Proof.
+    intros I. split; intros wd H.
+    - destruct (key_alookup N.eqb Neqb_eq' wd (pfw r) H) as [x Hx]. destruct (wi_pfw _ _ _ I _ _ Hx) as (kw & Hk & <-).
+      now apply in_map.
+    - apply in_map_iff in H as ([x wd'] & E & H). cbn in E. subst wd'.
+      apply (in_alookup beqb beqb_eq x wd (wfp r) (wi_keys _ _ _ I)) in H.
+      destruct (wi_tight _ _ _ I _ _ H) as [(kw & Hk & <-) _]. now apply in_map.
+  Qed.
+
   Lemma add_watch_ok w k r e : wf_fs w -> WInv (w_fs w) k r -> In e (w_fs w) -> f_dir e = true -> scope (f_path e) ->
     exists r' k' wd, add_watch C r k (w_fs w) (f_path e) = Some (r', k', wd) /\
       WInv (w_fs w) k' r' /\ k_queue k' = k_queue k /\ k_next_cookie k' = k_next_cookie k /\ mvf r' = mvf r /\
@@ -866,6 +951,8 @@ Section Cover.
         * intros kw0 H0. destruct (wi_exact _ _ _ I kw0 H0) as (e0 & ? & ? & ? & ? & ? & ?).
           exists e0. rewrite Lw, Lp. repeat split; assumption.
         * intros x wd. rewrite Lw, Lp. apply I.
+        * intros wd x. rewrite Lp. apply I.
+        * apply wkeys_set. apply I.
       + exists kw. split; [|reflexivity]. unfold cov, watch_of_ino. cbn [k_watches wfp pfw]. rewrite Hmap, Lw, Lp.
         repeat split; assumption.
       + intros e0 kw0 _ (H1 & H2 & H3). unfold cov, watch_of_ino in *. cbn [k_watches wfp pfw]. rewrite Hmap, Lw, Lp.
@@ -912,6 +999,10 @@ Section Cover.
              split; [exists kw0; split; [apply in_app_iff; now left | assumption]|].
              rewrite pset_neq; [assumption|]. rewrite <- E0. now apply Hold.
         * apply I.
+        * intros wd x Hx. apply pset_inv in Hx as [[-> _]|[Hne Hx]].
+          -- exists nw. split; [apply in_app_iff; right; now left | reflexivity].
+          -- destruct (wi_pfw _ _ _ I _ _ Hx) as (kw0 & Hk0 & E0). exists kw0. split; [apply in_app_iff; now left | assumption].
+        * apply wkeys_set. apply I.
       + exists nw. split; [|reflexivity]. unfold cov, watch_of_ino. cbn [k_watches wfp pfw].
         rewrite find_app. fold (watch_of_ino k (f_ino e)). rewrite Ew. cbn. rewrite N.eqb_refl.
         rewrite pset_eq, wset_eq. now repeat split.
@@ -988,6 +1079,24 @@ Section Cover.
   Proof.
     induction keys as [|[p wd] keys IH]; intros r; cbn [rekey_loop]; [reflexivity|].
     destruct (starts (src ++ [sep]) p); [|apply IH]. destruct (alookup beqb p (wfp r)); [|apply IH]. now rewrite IH.
+  Qed.
+
+  (* the re-key loop keeps _wd_for_path a dictionary and introduces no descriptor *)
+  Lemma rekey_loop_keys keys src dst : forall r, NoDup (map fst (wfp r)) -> NoDup (map fst (wfp (rekey_loop keys src dst r))).
+  Proof.
+    induction keys as [|[p wd] keys IH]; intros r H; cbn [rekey_loop]; [exact H|].
+    destruct (starts (src ++ [sep]) p); [|now apply IH]. destruct (alookup beqb p (wfp r)); [|now apply IH].
+    apply IH. cbn [wfp]. now apply wkeys_set, wkeys_rem.
+  Qed.
+
+  Lemma rekey_loop_pfw keys src dst : forall r wd x, alookup N.eqb wd (pfw (rekey_loop keys src dst r)) = Some x ->
+    (exists x', alookup N.eqb wd (pfw r) = Some x') \/ (exists y, alookup beqb y (wfp r) = Some wd).
+  Proof.
+    induction keys as [|[p wd0] keys IH]; intros r wd x H; cbn [rekey_loop] in H; [left; eauto|].
+    destruct (starts (src ++ [sep]) p); [|now apply IH in H]. destruct (alookup beqb p (wfp r)) as [w1|] eqn:E; [|now apply IH in H].
+    apply IH in H as [[x' H]|[y H]]; cbn [pfw wfp] in H.
+    - apply pset_inv in H as [[-> _]|[_ H]]; [right|left]; eauto.
+    - apply wset_inv in H as [[_ ->]|[_ H]]; [right; eauto|]. apply wrem_inv in H as [_ H]. right; eauto.
   Qed.
 
   Lemma WInv_init t : WInv t kinit rinit0.
@@ -1243,6 +1352,9 @@ Section Cover.
     rs_queue : k_queue k = [];
     rs_pend : pend r = None            (* no directory IN_MOVED_FROM is waiting for its IN_MOVED_TO *)
   }.
+
+  Lemma RSync_tables_live w k r : RSync w k r -> tables_live k r.
+  Proof. intros S. exact (pfw_live _ _ _ (rs_inv _ _ _ S)). Qed.
 
   Definition drainq (k : kst) : kst := kset_queue k [].
 
@@ -1637,6 +1749,9 @@ Section Cover.
         split; [exists kw0; split; [apply Hfil; split; [assumption | congruence] | assumption]|].
         now rewrite prem_neq.
       + intros c x Hx. apply (wi_mvf _ _ _ I) in Hx. lia.
+      + intros wd x Hx. apply prem_inv in Hx as [Hne Hx]. destruct (wi_pfw _ _ _ I _ _ Hx) as (kw0 & Hk0 & E0).
+        exists kw0. split; [apply Hfil; split; [assumption | congruence] | assumption].
+      + apply wkeys_rem, I.
     - intros e He De Se. destruct (Ht1 e He De) as [He0 Ene].
       destruct (Cv e He0 De Se) as (kw0 & C1 & C2 & C3). exists kw0.
       destruct (watch_of_ino_some _ _ _ C1) as [Hk0 Ek0].
@@ -2117,7 +2232,9 @@ Section Cover.
       (forall y wd, alookup beqb y (wfp r'') = Some wd ->
          exists e kw, In e (w_fs w) /\ f_dir e = true /\ scope (f_path e) /\ f_path e <> q /\ cov k r e kw /\
                       kw_wd kw = wd /\ y = rk p q (f_path e)) /\
-      Forall rsafe evs.
+      Forall rsafe evs /\
+      (forall wd x, alookup N.eqb wd (pfw r'') = Some x -> exists kw, In kw (k_watches k) /\ kw_wd kw = wd) /\
+      NoDup (map fst (wfp r'')).
   Proof.
     intros W Hr I Cv Hpd Np Nq Hrec Elp Dep Sp Hpr Sq Hqr Hne Hupq Hbelow Edq.
     destruct (flookup_some _ _ _ Elp) as [Hep Eep].
@@ -2201,7 +2318,14 @@ Section Cover.
           * apply Pf; try assumption. split; [|split]; assumption. }
     split; [rewrite (j5 _ _ _ _ J); reflexivity|]. split; [unfold r''; now rewrite rekey_loop_pend|].
     split; [exact F|]. split; [exact Pf|]. split.
-    2:{ repeat constructor; apply good_rsafe; split; reflexivity. }
+    2:{ split; [repeat constructor; apply good_rsafe; split; reflexivity|].
+        destruct (watch_of_ino_some _ _ _ Cwe) as [Hkwe _]. split.
+        - intros wd x Hx. unfold r'' in Hx. apply rekey_loop_pfw in Hx as [[x' Hx]|[y Hx]].
+          + cbn [r' pfw r1] in Hx. apply pset_inv in Hx as [[-> _]|[_ Hx]]; [exists kwe; now split|].
+            exact (wi_pfw _ _ _ I _ _ Hx).
+          + destruct (B' y wd Hx) as [[_ ->]|(_ & _ & Hx')]; [exists kwe; now split|].
+            exact (proj1 (wi_tight _ _ _ I _ _ Hx')).
+        - unfold r''. apply rekey_loop_keys. cbn [r' wfp r1]. apply wkeys_set, wkeys_rem, I. }
     intros y wd Hy. destruct (j1 _ _ _ _ J y wd Hy) as (x0 & H0 & Hy0).
     destruct (B' x0 wd H0) as [[-> ->]|(Nq0 & Np0 & H0')].
     - assert (y = q) by (destruct Hy0 as [->|[Hu _]]; [reflexivity | congruence]). subst y.
@@ -2251,7 +2375,7 @@ Section Cover.
     set (t' := frename p q (w_fs w)) in *.
     set (kf := {| k_watches := k_watches k; k_next_wd := k_next_wd k; k_queue := []; k_next_cookie := k_next_cookie k + 1 |}).
     destruct (rename_dir_rekey w k r p q ep t' kf W Hr I Cv Hpd Np Nq Hrec Elp Dep Sp Hpr Sq Hqr Hne Hupq Hbelow Edq)
-      as (kwp & kwq & kwe & r'' & evs0 & Cwp & Cwq & Cep & Hrd1 & Hmv & Hpd2 & F & Pf & T & Hsafe0).
+      as (kwp & kwq & kwe & r'' & evs0 & Cwp & Cwq & Cep & Hrd1 & Hmv & Hpd2 & F & Pf & T & Hsafe0 & Lp2 & Kw2).
     subst k1. cbn [kernel_op w_fs]. rewrite Fq.
     rewrite rename_kernel; [|exact Hq|].
     2:{ intros kw Hk. rewrite (wi_mask _ _ _ I kw Hk). now split. }
@@ -2283,6 +2407,8 @@ Section Cover.
         destruct Ce as (Cw' & _). destruct (watch_of_ino_some _ _ _ Cw') as [Hk _].
         split; [exists kw; now split|]. rewrite <- Ewd. now rewrite Ey.
       + rewrite Hmv. apply mvf_aset_lt; [exact 0%N | apply I].
+      + exact Lp2.
+      + exact Kw2.
     - cbn [w_fs]. intros e' He' De' Se'. unfold t' in He'. rewrite frename_map in He'.
       apply in_map_iff in He' as (e & <- & He).
       rewrite ren_dir in De'. rewrite ren_path in Se'.
@@ -2321,7 +2447,7 @@ Section Cover.
     set (kf := {| k_watches := filter (fun x => negb (N.eqb (kw_wd x) (kw_wd kwv))) (k_watches k); k_next_wd := k_next_wd k;
                   k_queue := []; k_next_cookie := k_next_cookie k + 1 |}).
     destruct (rename_dir_rekey w k r p q ep t' kf W Hr I Cv Hpd Np Nq Hrec Elp Dep Sp Hpr Sq Hqr Hne Hupq Hbelow Edq)
-      as (kwp & kwq & kwe & r'' & evs0 & Cwp & Cwq & Cep & Hrd1 & Hmv & Hpd2 & F & Pf & T & Hsafe0).
+      as (kwp & kwq & kwe & r'' & evs0 & Cwp & Cwq & Cep & Hrd1 & Hmv & Hpd2 & F & Pf & T & Hsafe0 & Lp2 & Kw2).
     (* the kernel *)
     subst k1. cbn [kernel_op w_fs]. rewrite Fq.
     set (k2 := knotify (knotify _ _ _ _ _ _) _ _ _ _ _).
@@ -2402,6 +2528,9 @@ Section Cover.
         split; [exists kw; split; [apply Hfil; now split | exact Ewd]|].
         rewrite <- Ewd, prem_neq by assumption. now rewrite Ey.
       + rewrite Hmv. cbn [kf k_next_cookie]. apply mvf_aset_lt; [exact 0%N | apply I].
+      + intros wd x Hx. apply prem_inv in Hx as [Hnw Hx]. destruct (Lp2 _ _ Hx) as (kw0 & Hk0 & E0).
+        exists kw0. split; [apply Hfil; split; [assumption | congruence] | assumption].
+      + exact Kw2.
     - cbn [w_fs]. intros e' He' De' Se'. unfold t' in He'. rewrite frename_map in He'.
       apply in_map_iff in He' as (e & <- & He). apply fremove_in in He as [He Hnq].
       rewrite ren_dir in De'. rewrite ren_path in Se'.
